@@ -265,3 +265,14 @@ def replay(args):
         return 1
     print("replay did not reproduce the violation on this tree")
     return 0
+
+
+def digests(seed, runs):
+    """seed -> run digest, for the determinism self-test."""
+    global _R
+    core.bootstrap()
+    _R = core.compute_reference()
+    c19.build_loc_funcs()
+    seeds = seeds_for(seed, runs)
+    res = core.run_batch(_seed_task, seeds, timeout=60.0)
+    return {str(seeds[i]): (out["digest"] if st == "ok" else f"{st}") for i, st, out in res}
